@@ -25,7 +25,9 @@ def prov_atom_names(repo, tier="quick"):
             na = node_attr(tt)
             if na and na[0] == mol and na[2] == ("const", "atomname"):
                 stores.append((n, na, fl.canon(n.ast.value, n.id)))
-    need(stores, "anchor vanished: set_atom_names_atomistic no longer stores 'atomname' on the molecule", fi)
+    if not stores:
+        return [ob_fail(oid, fi, construct="no store of 'atomname' on the molecule", instance="name",
+                        reason="atom names are never written: all-atom results keep the fragment-level names, which repeat in every copy")]
     for n, na, v in stores:
         node = na[1]
         ok = False
